@@ -142,3 +142,10 @@ M["M12_merge_schema_check_removed"] = ("fastparquet/util.py", '''               
                     raise ValueError('Incompatible schemas')
 ''', '''                pass
 ''', "M")
+M["M13_filter_check_last_or_group_only"] = ("fastparquet/api.py", '''    known = [ands[0] in as_cols for ors in filters for ands in ors]
+''', '''    for ors in filters:
+        known = [ands[0] in as_cols for ands in ors]
+''', "M")
+M["M14_selection_check_first_column_only"] = ("fastparquet/api.py", '''        check_column_names(self.columns + list(self.cats), columns, categories)
+''', '''        check_column_names(self.columns + list(self.cats), columns[:1] if columns else columns, categories)
+''', "M")
